@@ -49,6 +49,8 @@ pub enum SOp {
     Collect { receiver: u8, token: u8, amount: SAmt, auth: AuthVar, abort: Option<u16> },
     Refund { receiver: u8, token: u8, amount: SAmt, msg_id: StrSpec, auth: AuthVar, abort: Option<u16> },
     TransferOwnership { to: u8, auth: AuthVar, abort: Option<u16> },
+    /// ledgers close (sequence and time advance): nothing the service holds may depend on it
+    Advance { dseq: u32 },
     Resubmit { k: u16 },
 }
 
@@ -60,6 +62,7 @@ impl SOp {
             SOp::Collect { .. } => "collect_fees",
             SOp::Refund { .. } => "refund",
             SOp::TransferOwnership { .. } => "transfer_ownership",
+            SOp::Advance { .. } => "advance",
             SOp::Resubmit { .. } => "resubmit",
         }
     }
@@ -260,6 +263,9 @@ impl SExec {
                 }
                 self.m.owner = ti;
             }
+            SOp::Advance { dseq } => {
+                crate::common::advance_ledgers(&self.sim, ctx, *dseq);
+            }
             SOp::Resubmit { .. } => {}
         }
     }
@@ -415,6 +421,9 @@ impl World for WorldS {
                 _ => SOp::Resubmit { k: rng.below(64) as u16 },
             };
             ops.push(op);
+            if rng.chance(1, 12) {
+                ops.push(SOp::Advance { dseq: *rng.pick(&[1u32, 17, 100, 20_000]) });
+            }
         }
         (cfg, ops)
     }
@@ -463,7 +472,7 @@ impl World for WorldS {
             };
             ctx.trace_str(eff.kind());
             ex.run_op(ctx, &eff);
-            if !matches!(op, SOp::Resubmit { .. }) {
+            if !matches!(op, SOp::Resubmit { .. } | SOp::Advance { .. }) {
                 ex.history.push(op.clone());
             }
             if !ctx.stopped() {
